@@ -93,6 +93,21 @@ func (e *Engine) VerifyFunction(fn *ssa.Function, con *Contract, prof *Profile) 
 		for i, en := range con.Ensures {
 			c.oblige("ensures", fmt.Sprintf("ensures#%s@r%d", clauseName(en, i), k), g, c.evalBool(env, en.E), en.Src)
 		}
+		if con.ModAll && len(con.Preserves) > 0 {
+			for _, pn := range con.Preserves {
+				for _, l := range c.modLocs(envPre, pn) {
+					cur := c.get(rst, l.Region)
+					if cur == l.Region+"@0" {
+						continue
+					}
+					if strings.HasPrefix(c.regSort[l.Region], "(Array Int ") {
+						c.oblige("frame", fmt.Sprintf("frame#%s@r%d", l.Region, k), g, fmt.Sprintf("(forall ((q_r Int)) (=> (and (<= 0 q_r) (< q_r alloc@0)) (= (select %s q_r) (select %s@0 q_r))))", cur, l.Region), "preserved region "+l.Region)
+					} else {
+						c.oblige("frame", fmt.Sprintf("frame#%s@r%d", l.Region, k), g, fmt.Sprintf("(= %s %s@0)", cur, l.Region), "preserved region "+l.Region)
+					}
+				}
+			}
+		}
 		if !con.ModAll && !prof.DefaultHavoc {
 			var regs []string
 			for r := range rst.ver {
@@ -100,7 +115,7 @@ func (e *Engine) VerifyFunction(fn *ssa.Function, con *Contract, prof *Profile) 
 			}
 			sort.Strings(regs)
 			for _, r := range regs {
-				if whole[r] || strings.HasPrefix(r, "GV_") && whole[r] {
+				if whole[r] || strings.HasPrefix(r, "L_") {
 					continue
 				}
 				cur := c.get(rst, r)
